@@ -49,7 +49,7 @@ func init() {
 		Cases:       cases,
 		Run:         runHistory,
 		MinCounters: []string{"assign_checked", "whatif_assign_checked", "assign_checked_mev", "noeligible_fail_checked", "relay_queries", "relay_state/relayable", "relay_state/sender", "relay_state/estimate", "relay_state/reported", "relay_state/valset", "discr_sender_blockers_all_other_assignee", "discr_sender_blockers_all_unestimated", "fee_checked", "fee_ceil_discriminating", "assign_kind/skyway-batch", "assign_kind/valset"},
-		Workers:     10,
+		Workers:     16,
 		TimeoutS:    900,
 	})
 }
